@@ -7,6 +7,8 @@ declare -A expect; expect[C12-2]=0     # inside inverse_gamma_lr_impl (uninterpr
 expect[C09-4]=2; expect[C17-3]=2; expect[C17-7]=2; expect[C04-1]=2     # restructured `sample`: overlays lose their anchors and no bounded stand-in reaches `sample` -> undecided (exit 2), never an alarm
 # inside unverified callees (graph search / weight sum: uninterpreted functions, C03 not applicable): not detectable, exit 0
 expect[C05-6]=2; expect[C17-6]=0
+# restructured-function rule: a moved `break` leaves only a misplaced proof hint failing -> undecided in the quick tier (thorough: Kani perm_e2)
+expect[C07-2]=2; expect[C07-6]=2
 # round 4
 expect[C06-7]=2; expect[C11-7]=2; expect[C20-5]=2      # restructured / unknown callee: undecided
 expect[C07-7]=0; expect[C12-3]=0   # rejected under another property's check only (C03/C05: undecided there) / out of reach (C12-3)
